@@ -151,7 +151,7 @@ def ev(node: Any, v: Any, dim: Dimension) -> Any:  # pylint: disable=too-many-re
     if k == "r":
         return dim.read(node, v)
     if k == "op":
-        if CONST_FREE[0] and dim.outside_claim(node):
+        if CONST_FREE[0] and getattr(dim, "outside_claim", None) is not None and dim.outside_claim(node):
             return FREE
         x = ev(node[2], v, dim)
         y = ev(node[3], v, dim)
